@@ -70,6 +70,11 @@ static PPath gen_base(Rng& r, const Frame& f, int fam, int maxpts) {
       double rr = (double)f.ext, ph = r.unit() * 6.28318530717958647692;
       for (int i = 0; i < n; ++i) { double a = ph + 6.28318530717958647692 * (double)((i * k) % n) / n; PPt q; q.x = f.cx + (int64_t)std::llround(rr * std::cos(a)); q.y = f.cy + (int64_t)std::llround(rr * std::sin(a)); p.push_back(q); }
       break; }
+    case 8: {                                                                                                     // shallow zigzag: long nearly horizontal edges (|dx/dy| >> 100)
+      n = (int)r.range(3, std::max(3, std::min(maxpts, 10))); int64_t y = f.cy + r.range(-4, 4);
+      for (int i = 0; i < n; ++i) { PPt q; q.x = ((i & 1) ? f.cx + f.ext : f.cx - f.ext) + ((i & 1) ? -1 : 1) * r.range(0, std::max<int64_t>(0, f.ext / 8)); q.y = y; p.push_back(q); y += r.range(-3, 3); }
+      if (r.chance(0.5)) { PPt q = rnd_pt(r, f); p.push_back(q); }
+      break; }
     default: {                                                                                                    // random walk (self-intersecting)
       n = (int)r.range(3, std::max(3, maxpts)); PPt a = rnd_pt(r, f); int64_t st = std::max<int64_t>(1, f.ext / 4);
       for (int i = 0; i < n; ++i) { p.push_back(a); a.x += snap(r.range(-st, st), f.grid); a.y += snap(r.range(-st, st), f.grid);
@@ -108,7 +113,7 @@ PPaths gen_paths(Rng& r, int64_t mag, int maxpaths, int maxpts, bool z, const Fr
       else if (k == 1) { int64_t dx = r.range(-2, 2), dy = r.range(-2, 2); for (PPt& q : p) { q.x = std::max(-mag, std::min(mag, q.x + dx)); q.y = std::max(-mag, std::min(mag, q.y + dy)); } }
       else if (k == 2 && !p.empty()) std::rotate(p.begin(), p.begin() + r.below(p.size()), p.end());
     } else {
-      static const int fams[] = {0, 0, 0, 1, 1, 2, 2, 3, 3, 4, 4, 5, 6, 6, 7};
+      static const int fams[] = {0, 0, 0, 1, 1, 2, 2, 3, 3, 4, 4, 5, 6, 6, 7, 8};
       int fam = fams[r.below(sizeof(fams) / sizeof(int))];
       Frame g = f;
       if (r.chance(0.3)) { g.ext = std::max<int64_t>(1, f.ext / 2); g.cx = f.cx + snap(r.range(-f.ext / 2, f.ext / 2), f.grid); g.cy = f.cy + snap(r.range(-f.ext / 2, f.ext / 2), f.grid); }
@@ -265,9 +270,9 @@ static int append_entry(Rng& r, Plan& pl, int kind, int task, int slot0, const s
         setP(o, 0, groups[i]); push(o);
       }
       int w = (int)r.below(10);
-      if (w < 2) { Op o = mkop("f_execcb", task); o.o = slot0; o.i = {(int64_t)r.below(3), (int64_t)r.below(2), 0}; o.d = {std::min(std::fabs(delta) + 1, 1e6)}; push(o); }
+      if (w < 2) { Op o = mkop("f_execcb", task); o.o = slot0; o.i = {(int64_t)r.below(6), (int64_t)r.below(2), 0}; o.d = {std::min(std::fabs(delta) + 1, 1e6)}; push(o); }
       else {
-        if (w < 4) { Op s = mkop("f_setdcb", task); s.o = slot0; s.i = {(int64_t)r.range(1, 3)}; s.d = {std::min(std::fabs(delta) + 1, 1e6)}; push(s); }
+        if (w < 4) { Op s = mkop("f_setdcb", task); s.o = slot0; s.i = {(int64_t)r.range(1, 6)}; s.d = {std::min(std::fabs(delta) + 1, 1e6)}; push(s); }
         Op o = mkop("f_exec", task); o.o = slot0; o.d = {delta}; o.i = {(int64_t)r.below(2), (int64_t)r.below(2), 0}; push(o);
       }
       if (r.chance(0.2)) { Op o = mkop("f_exec", task); o.o = slot0; o.d = {-delta * 0.5}; o.i = {(int64_t)r.below(2), 0, 0}; push(o); }
@@ -483,7 +488,7 @@ static void gen_offset_alone_history(Rng& g, Plan& pl, bool z) {
   int64_t cell = g.chance(0.5) ? g.range(8, 60) : g.range(60, 1000);
   static const double dl[] = {0.6, 1, 2, 3, 5, 10, 25};
   double delta = dl[g.below(7)]; if (g.chance(0.4)) delta = -delta;
-  int dcb = g.chance(0.2) ? (int)g.range(1, 3) : 0; double dbase = std::fabs(delta) + 1;
+  int dcb = g.chance(0.2) ? (int)g.range(1, 6) : 0; double dbase = std::fabs(delta) + 1;
   double maxd = dcb ? dbase * 1.01 + 1 : std::fabs(delta);
   int64_t reach = (int64_t)std::ceil(maxd * std::max(miter, 2.0)) + 6;
   int64_t pitch = cell + 2 * reach + 8;
@@ -589,8 +594,8 @@ Plan gen_c12(uint64_t seed, uint64_t run, const std::string& cfg) {
         case 3: o = mkop("clear"); o.o = 0; break;
         case 4: o = mkop(g.chance(0.5) ? "f_miter" : "f_arc"); o.o = 0; o.d = {g.chance(0.5) ? 2.0 : g.unit() * 3}; break;
         case 5: if (z && g.chance(0.4)) { o = mkop("setz"); o.o = 0; o.i = {(int64_t)g.below(3)}; } else { o = mkop(g.chance(0.5) ? "pc" : "rs"); o.o = 0; o.i = {(int64_t)g.below(2)}; } break;
-        case 6: o = mkop("f_setdcb"); o.o = 0; o.i = {(int64_t)g.below(4)}; o.d = {std::fabs(D()) + 1}; break;
-        case 7: o = mkop("f_execcb"); o.o = 0; o.i = {(int64_t)g.below(3), (int64_t)g.below(2), 0}; o.d = {std::fabs(D()) + 1}; ++nexec; break;
+        case 6: o = mkop("f_setdcb"); o.o = 0; o.i = {(int64_t)g.below(7)}; o.d = {std::fabs(D()) + 1}; break;
+        case 7: o = mkop("f_execcb"); o.o = 0; o.i = {(int64_t)g.below(6), (int64_t)g.below(2), 0}; o.d = {std::fabs(D()) + 1}; ++nexec; break;
         case 8: case 11: o = mkop("f_exec"); o.o = 0; o.d = {D()}; o.i = {0, (int64_t)g.below(2), 0}; ++nexec; break;
         default: o = mkop("f_exec"); o.o = 0; o.d = {D()}; o.i = {1, (int64_t)g.below(2), 0}; ++nexec; break;
       }
